@@ -191,9 +191,14 @@ func c08Class(r *rig) string {
 // ---------------------------------------------------------------- generic runner for rig properties
 
 type envScenario struct {
-	name  string
-	conf  rigConf
-	setup func(r *rig)
+	name   string
+	conf   rigConf
+	setup  func(r *rig)
+	maxDev int // 0: the property's default
+}
+
+func esc(name string, conf rigConf, setup func(r *rig)) envScenario {
+	return envScenario{name: name, conf: conf, setup: setup}
 }
 
 func runEnvProperty(t *testing.T, prop, part string, scs []envScenario, maxDev int, alts func(ev vh.EnvEvent, plan []vh.Deviation) []string,
@@ -203,7 +208,11 @@ func runEnvProperty(t *testing.T, prop, part string, scs []envScenario, maxDev i
 	defer rep.Write()
 	for _, sc := range scs {
 		sc := sc
-		e := &vh.Env{Rep: rep, Scenario: sc.name, MaxDev: maxDev,
+		md := maxDev
+		if sc.maxDev > 0 {
+			md = sc.maxDev
+		}
+		e := &vh.Env{Rep: rep, Scenario: sc.name, MaxDev: md,
 			Run: func(plan []vh.Deviation) vh.EnvRun {
 				return envRun(sc.conf, plan, sc.setup, goalDelivered, check)
 			},
@@ -255,11 +264,11 @@ func TestC03Env(t *testing.T) {
 	d := 2
 	cron := confTwoThreads()
 	cron.Rerun = true // a one-shot sender that exits with a failed file left is invoked again
-	scs := []envScenario{{"3 files, 2 threads, one-shot invoked every minute", cron, nil}, {"2 files, 1 thread, daemon", asDaemon(confOneThread()), nil}}
+	scs := []envScenario{esc("3 files, 2 threads, one-shot invoked every minute", cron, nil), esc("2 files, 1 thread, daemon", asDaemon(confOneThread()), nil)}
 	if vh.Thorough() {
 		d = 3
 		scs = scs[1:]
-		scs = append(scs, envScenario{"3 files, 2 threads, one-shot invoked every minute", cron, nil})
+		scs = append(scs, esc("3 files, 2 threads, one-shot invoked every minute", cron, nil))
 	}
 	runEnvProperty(t, "C03", "transient failures, then a failure-free period (E-ENV)", scs, d,
 		func(ev vh.EnvEvent, plan []vh.Deviation) []string {
@@ -319,10 +328,10 @@ func c16Check(r *rig) (string, string, string) {
 func TestC16Env(t *testing.T) {
 	d := 2
 	scs := []envScenario{
-		{"2 files, 1 thread, daemon", asDaemon(confOneThread()), nil},
-		{"3 files, 2 threads, daemon", asDaemon(confTwoThreads()), nil},
-		{"3 files, 2 threads, one-shot", confTwoThreads(), nil},
-		{"8 files, 1 thread, daemon (pipeline fills up)", asDaemon(confManyFiles()), nil},
+		esc("2 files, 1 thread, daemon", asDaemon(confOneThread()), nil),
+		esc("3 files, 2 threads, daemon", asDaemon(confTwoThreads()), nil),
+		esc("3 files, 2 threads, one-shot", confTwoThreads(), nil),
+		esc("8 files, 1 thread, daemon (pipeline fills up)", asDaemon(confManyFiles()), nil),
 	}
 	for i := range scs {
 		scs[i].conf.Horizon = 20 * time.Minute
@@ -408,9 +417,9 @@ func c07Check(r *rig) (string, string, string) {
 func TestC07Env(t *testing.T) {
 	d := 2
 	scs := []envScenario{
-		{"3 files, 2 threads, one-shot", confTwoThreads(), armC02},
-		{"2 files, 1 thread, daemon", asDaemon(confOneThread()), armC02},
-		{"4 files of one group, 2 threads, one-shot", confOneGroup(), armC02},
+		esc("3 files, 2 threads, one-shot", confTwoThreads(), armC02),
+		esc("2 files, 1 thread, daemon", asDaemon(confOneThread()), armC02),
+		esc("4 files of one group, 2 threads, one-shot", confOneGroup(), armC02),
 	}
 	runEnvProperty(t, "C07", "sender crash at every sender action (E-ENV)", scs, d,
 		func(ev vh.EnvEvent, plan []vh.Deviation) []string {
@@ -449,14 +458,14 @@ func TestC02Env(t *testing.T) {
 		return func(r *rig) { armC02(r); r.fileOps = ops }
 	}
 	scs := []envScenario{
-		{"2 files, 1 thread, delete, one-shot", confOneThread(), withFiles(confOneThread(), "rewrite", "append")},
-		{"2 files, 1 thread, keep, daemon", asDaemon(confKeep()), withFiles(confKeep(), "rewrite")},
-		{"2 files, 1 thread, delete, daemon", asDaemon(confOneThread()), withFiles(confOneThread(), "rewrite", "append")},
-		{"2 files, delete, receiver holds an older version known only from its log", confOneThread(), func(r *rig) {
+		esc("2 files, 1 thread, delete, one-shot", confOneThread(), withFiles(confOneThread(), "rewrite", "append")),
+		esc("2 files, 1 thread, keep, daemon", asDaemon(confKeep()), withFiles(confKeep(), "rewrite")),
+		esc("2 files, 1 thread, delete, daemon", asDaemon(confOneThread()), withFiles(confOneThread(), "rewrite", "append")),
+		esc("2 files, delete, receiver holds an older version known only from its log", confOneThread(), func(r *rig) {
 			armC02(r)
 			r.fileOps = []string{"rewrite"}
 			r.preload = []preloaded{{Name: "g/a", Data: "older version of a", AgeH: 30}}
-		}},
+		}),
 	}
 	for i := range scs {
 		scs[i].conf.Horizon = 10 * time.Minute
@@ -523,4 +532,245 @@ func (r *rig) c16Drained() string {
 		}
 	}
 	return ""
+}
+
+// ---------------------------------------------------------------- C17: eligibility and histories of changes
+
+// every (name, hash) whose size and time did not change after it was queued is transmitted
+// once: bytes acknowledged per version <= size x (1 + number of times the harness touched
+// the file without changing its content)
+func (r *rig) c17Once(touches map[string]int) string {
+	r.mu.Lock()
+	defer r.mu.Unlock()
+	sent := map[string]int64{}
+	for _, w := range r.wire {
+		if w.Kind != "data" || w.Err != "" {
+			continue
+		}
+		for _, p := range w.Parts {
+			sent[p.Name+" "+p.Hash] += p.End - p.Beg
+		}
+	}
+	for k, n := range sent {
+		name := strings.SplitN(k, " ", 2)[0]
+		var size int64 = -1
+		for _, f := range r.conf.Files {
+			if f.Name == name {
+				size = int64(len(f.Data))
+			}
+		}
+		if fi, ok := r.sizes[k]; ok {
+			size = fi
+		}
+		if size >= 0 && n > size*int64(1+touches[name]) {
+			return fmt.Sprintf("C17: %d bytes of version %s were transmitted, its size is %d and nothing forced a retransmission", n, k, size)
+		}
+	}
+	return ""
+}
+
+func c17Check(ineligible []string) func(r *rig) (string, string, string) {
+	return func(r *rig) (string, string, string) {
+		tr := func() string { return r.traceString() }
+		if v := r.c01Final(); v != "" {
+			return "C17 (what is delivered is one complete version): " + v + "\n" + tr(), "", ""
+		}
+		bad := map[string]bool{}
+		for _, n := range ineligible {
+			bad[n] = true
+		}
+		for _, w := range r.wire {
+			for _, p := range w.Parts {
+				if bad[p.Name] {
+					return fmt.Sprintf("C17: ineligible file %s was transmitted / polled\n%s", p.Name, tr()), "", ""
+				}
+			}
+		}
+		for _, e := range r.events {
+			if e.Kind == "remove" || e.Kind == "done" {
+				n := e.Key[strings.Index(e.Key, ":")+1 : strings.LastIndex(e.Key, "#")]
+				if bad[n] {
+					return fmt.Sprintf("C17: ineligible file %s was released (%s)\n%s", n, e.Kind, tr()), "", ""
+				}
+			}
+		}
+		src := r.sourceFiles()
+		for _, n := range ineligible {
+			if _, ok := src[n]; !ok && !r.changed[n] {
+				return fmt.Sprintf("C17: ineligible file %s disappeared from the outgoing directory\n%s", n, tr()), "", ""
+			}
+		}
+		touches := map[string]int{}
+		for _, n := range r.notes {
+			if i := strings.Index(n, "file change touch "); i >= 0 {
+				touches[strings.TrimSpace(n[i+len("file change touch "):])]++
+			}
+		}
+		for _, w := range r.wire { // a failed validation forces the whole file to be sent again
+			if w.Kind == "validate" {
+				for n, c := range w.Answers {
+					if c == 1 {
+						touches[n]++
+					}
+				}
+			}
+		}
+		if v := r.c17Once(touches); v != "" {
+			return v + "\n" + tr(), "", ""
+		}
+		if g := r.c03Goal(); g != "" {
+			return fmt.Sprintf("C17: %.0f s after the last change the latest version of every eligible file should be delivered and released: %s\n%s", (r.now() - r.lastDev).Seconds(), g, tr()), "", ""
+		}
+		return "", "", fmt.Sprintf("changes=%d", len(r.changed))
+	}
+}
+
+func TestC17Env(t *testing.T) {
+	d := 2
+	if vh.Thorough() {
+		d = 3
+	}
+	conf := asDaemon(confOneThread())
+	conf.Horizon = 30 * time.Minute
+	conf.MinAge = 60 * time.Second
+	conf.Files = append(conf.Files,
+		rigFile{Name: "g/.hidden", Data: "hidden", Age: 300},
+		rigFile{Name: "g/x.lck", Data: "locked", Age: 300},
+		rigFile{Name: "g/young", Data: "too young", Age: 10},
+	)
+	inel := []string{"g/.hidden", "g/x.lck"}
+	setup := func(r *rig) {
+		r.fileOps = []string{"rewrite", "append", "touch"}
+		delete(r.expect, "g/.hidden")
+		delete(r.expect, "g/x.lck")
+	}
+	scs := []envScenario{esc("2 eligible + 3 other files, 1 thread, delete, daemon", conf, setup)}
+	keep := conf
+	keep.Delete = false
+	scs = append(scs, envScenario{"2 eligible + 3 other files, 1 thread, keep, daemon (one deviation less)", keep, setup, d - 1})
+	runEnvProperty(t, "C17", "files changing between and during scans, hashing and transmission (E-ENV)", scs, d,
+		func(ev vh.EnvEvent, plan []vh.Deviation) []string {
+			if kindOf(ev.Key) == "remove" {
+				return nil
+			}
+			var out []string
+			if kindOf(ev.Key) == "data" {
+				// a change in flight matters most when the transmission then fails
+				out = append(out, pick(ev.Menu, "refuse", "corrupt:")...)
+			}
+			for _, m := range pick(ev.Menu, "file:") {
+				if strings.HasSuffix(m, ":g/a") || strings.HasSuffix(m, ":g/b") || (strings.HasSuffix(m, ":g/young") && strings.Contains(m, "append")) {
+					out = append(out, m)
+				}
+			}
+			return out
+		}, c17Check(inel),
+		fmt.Sprintf("all plans with <= %d deviations: file changes (rewritten with the same size, appended to, touched; created anew under its name when it was already delivered and deleted) applied to an eligible file at any externally visible action of the sender (scan, cache write, data / poll request, sent-log write, done-marking), and request failures (data request refused, a part corrupted in transit); daemon with scan delay 30 s, min-age 60 s, hidden file, lock file and a file that becomes old enough during the run present; oracle: ineligible files are never transmitted, polled, released or removed; what is delivered is one complete version; an unchanged version is transmitted once; 30 min after the last change the latest version of every eligible file is delivered and released", d))
+}
+
+// TestC17Elig: which files are queued, for every combination of the eligibility options, on a
+// tree that holds one file of every kind. Each combination is one real one-shot run.
+func TestC17Elig(t *testing.T) {
+	envT = t
+	rep := vh.NewReport("C17", "eligibility: option combinations x file kinds (exhaustive enumeration, end-to-end)")
+	defer rep.Write()
+	type kind struct {
+		name   string
+		data   string
+		age    int
+		hidden bool // the file or a directory above it is hidden
+	}
+	kinds := []kind{
+		{"f", "plain file", 300, false},
+		{"d/f", "file in a directory", 300, false},
+		{"d/e/f2", "nested file", 300, false},
+		{".h", "hidden file", 300, true},
+		{".hd/f", "file in a hidden directory", 300, true},
+		{"x.lck", "lock file", 300, false},
+		{"d/.disabled", "disable marker below the root", 300, true},
+		{"z", "", 300, false}, // empty
+		{"y", "young file", 100, false},
+	}
+	n := 0
+	for mask := 0; mask < 64; mask++ {
+		n++
+		if !vh.Mine(n) {
+			continue
+		}
+		hidden, incl, ign, tagp, young, disabled := mask&1 != 0, mask&2 != 0, mask&4 != 0, mask&8 != 0, mask&16 != 0, mask&32 != 0
+		conf := confOneThread()
+		conf.Delete = true
+		conf.Files = nil
+		for _, k := range kinds {
+			conf.Files = append(conf.Files, rigFile{Name: k.name, Data: k.data, Age: k.age})
+		}
+		conf.IncludeHidden = hidden
+		if incl {
+			conf.Include = []string{`^d/`, `^\.`}
+		}
+		if ign {
+			conf.Ignore = []string{`f$`}
+		}
+		if tagp {
+			conf.NonHTTPTag = `^d/e/`
+		}
+		if young {
+			conf.MinAge = 150 * time.Second
+		}
+		if disabled {
+			conf.Files = append(conf.Files, rigFile{Name: ".disabled", Data: "", Age: 300})
+		}
+		conf.Horizon = 10 * time.Minute
+		want := map[string]bool{}
+		for _, k := range kinds {
+			ok := k.data != ""
+			ok = ok && (!young || k.age >= 150)
+			ok = ok && (hidden || !k.hidden)
+			ok = ok && !strings.HasSuffix(k.name, ".lck") && !strings.HasSuffix(k.name, ".disabled")
+			ok = ok && !(ign && strings.HasSuffix(k.name, "f"))
+			ok = ok && !(tagp && strings.HasPrefix(k.name, "d/e/"))
+			ok = ok && (!incl || strings.HasPrefix(k.name, "d/") || strings.HasPrefix(k.name, "."))
+			ok = ok && !disabled
+			want[k.name] = ok
+		}
+		desc := fmt.Sprintf("include-hidden=%v include=%v ignore=%v non-http-tag=%v min-age=%v disabled=%v", hidden, conf.Include, conf.Ignore, conf.NonHTTPTag, conf.MinAge, disabled)
+		res := envRun(conf, nil, func(r *rig) {
+			for k := range r.expect {
+				if !want[k] {
+					delete(r.expect, k)
+				}
+			}
+		}, nil, func(r *rig) (string, string, string) {
+			got := map[string]bool{}
+			for _, w := range r.wire {
+				if w.Kind == "data" {
+					for _, p := range w.Parts {
+						got[p.Name] = true
+					}
+				}
+			}
+			src := r.sourceFiles()
+			for _, k := range kinds {
+				if got[k.name] != want[k.name] {
+					return fmt.Sprintf("C17: with %s the file %s is eligible=%v but transmitted=%v", desc, k.name, want[k.name], got[k.name]), "", ""
+				}
+				if _, there := src[k.name]; !there && !want[k.name] {
+					return fmt.Sprintf("C17: with %s the ineligible file %s was deleted", desc, k.name), "", ""
+				}
+			}
+			if g := r.c03Goal(); g != "" {
+				return fmt.Sprintf("C17: with %s: %s\n%s", desc, g, r.traceString()), "", ""
+			}
+			return "", "", fmt.Sprintf("eligible=%d", len(r.expect))
+		})
+		rep.Executions++
+		rep.States++
+		rep.Transitions += int64(len(res.Events))
+		rep.Nontrivial++
+		rep.Outcome(res.Outcome)
+		if res.Viol != "" {
+			rep.Violate(res.Class, res.Viol, map[string]interface{}{"mask": mask})
+		}
+	}
+	rep.Bound = "all 64 combinations of {include-hidden, include patterns, an ignore pattern, a tag with a method other than http, min-age on either side of a file's age, disable marker at the root} on a tree with a plain file, files in (nested) directories, a hidden file, a file in a hidden directory, a lock file, a disable marker below the root, an empty file and a young file; each combination is one real one-shot run; reference = the predicate of the statement"
 }
